@@ -71,9 +71,45 @@ def _gen_numeric_feature(rng, n, kind=None):
     return kind, vals
 
 
+class _Narrow(dict):
+    """narrow integer kinds -> polars dtype (resolved lazily: polars is imported by the callers)"""
+
+    def __missing__(self, k):
+        raise KeyError(k)
+
+
+def _pl(name):
+    def get():
+        import polars as pl
+
+        return getattr(pl, name)
+    return get
+
+
+NARROW = {"int8w": _pl("Int8"), "int16w": _pl("Int16"), "uint8w": _pl("UInt8"), "uint16w": _pl("UInt16")}
+NARROW_RANGE = {"int8w": (-128, 127), "int16w": (-300, 300), "uint8w": (0, 255), "uint16w": (0, 600)}
+
+
+def gen_narrow_feature(rng, many_bins):
+    """integer feature in a narrow dtype; many_bins: enough distinct values for more bins than an 8-bit index holds"""
+    kind = rng.choice(["int8w", "int8w", "uint8w"]) if many_bins else rng.choice(list(NARROW))
+    lo, hi = NARROW_RANGE[kind]
+    if many_bins:
+        vals = list(range(lo, hi + 1))[: rng.choice([256, 300])]
+        vals += [rng.choice(vals) for _ in range(rng.randint(0, 40))]
+    else:
+        vals = [rng.randint(lo, hi) for _ in range(rng.choice([2, 5, 13, 30]))]
+    rng.shuffle(vals)
+    if rng.random() < 0.3:
+        vals[rng.randrange(len(vals))] = None
+    return kind, vals
+
+
 def numeric_series(kind, vals):
     import polars as pl
 
+    if kind in NARROW:
+        return pl.Series("f", vals, dtype=NARROW[kind]())
     if kind.startswith("int"):
         return pl.Series("f", vals, dtype=pl.Int64)
     if kind == "allnull":
